@@ -86,11 +86,20 @@ func VH_C20_AccountUpdate_sym() {
 	old := vBytes("old", 200)
 	vAssume(len(old) >= 1)
 	vfs.put("/cfg/Users/bob.yaml", old)
+	if vBool("stale_temp_file_from_earlier_crash") {
+		vfs.put("/cfg/Users/bob.yaml.tmp", vBytes("stale_tmp", 500))
+	}
 	initial := vfs.clone()
 	am := &YAMLAccountManager{accountDir: "/cfg/Users", accounts: map[string]hotline.Account{"bob": c20Account("bob")}}
 	err := am.Update(c20Account("bob"), "bob")
 	vAssert("update_ok", err == nil)
-	newDoc := c20LastWritten()
+	newDoc := c20Marshalled
+	if j := vfs.find("/cfg/Users/bob.yaml"); true {
+		vAssert("acknowledged_update_is_on_disk", j >= 0)
+		if j >= 0 {
+			vAssertEqBytes("acknowledged_account_file_is_the_new_document", vfs.data[j], newDoc)
+		}
+	}
 	s := c20Crash(initial)
 	c20NoPartialAccountFile(s, old, newDoc)
 	i := s.find("/cfg/Users/bob.yaml")
@@ -162,11 +171,20 @@ func VH_C20_BanAdd_sym() {
 	old := vBytes("old", 200)
 	vAssume(len(old) >= 1)
 	vfs.put("/cfg/Banlist.yaml", old)
+	if vBool("stale_temp_file_from_earlier_crash") {
+		vfs.put("/cfg/Banlist.yaml.tmp", vBytes("stale_tmp", 500))
+	}
 	initial := vfs.clone()
 	bf := &BanFile{filePath: "/cfg/Banlist.yaml", banList: map[string]*time.Time{}}
 	err := bf.Add("10.0.0.9", nil)
 	vAssert("add_ok", err == nil)
-	newDoc := c20LastWritten()
+	newDoc := c20Marshalled // the document the ban list serialises to, not whatever ended up in the file
+	if j := vfs.find("/cfg/Banlist.yaml"); true {
+		vAssert("acknowledged_ban_is_on_disk", j >= 0)
+		if j >= 0 {
+			vAssertEqBytes("acknowledged_ban_file_is_the_new_document", vfs.data[j], newDoc)
+		}
+	}
 	s := c20Crash(initial)
 	i := s.find("/cfg/Banlist.yaml")
 	vAssert("ban_file_exists_at_crash", i >= 0)
